@@ -214,7 +214,7 @@ def judge(part, case, ctx):
     acts = [a for a in ctx.actions[n0:] if type(a).__name__ == "LiquidationAction"]
     hf0 = risk0["hf"]
     part.count(f"hf_class.{case['target']}")
-    if case.get("special") == "exact-1" and hf0 != 1:
+    if case.get("special") == "exact-1" and not case.get("second_bar") and hf0 != 1:
         raise RuntimeError(f"harness: the exact-1 case does not produce a health factor of exactly 1 ({hf0})")
     # ---- iff --------------------------------------------------------------------------------------------------
     if hf0 is not None and hf0 >= 1:
